@@ -94,6 +94,10 @@ CHECKS = [
   "every compiler-accepted program among: the typed families of C01; statements in context (every binary operator between 14 atoms, unary forms, constant trees, every builtin with 0-3 arguments from 17 argument forms) x 3 (thorough 5) placements (about 45 000 accepted quick, 106 000 thorough); 5 accepted-but-odd programs; the example programs over the first 60 lines of every test log; each run over its line alphabet twice with HardCrash set: no panic, and every runtime error is one of the VM's explicit checked conditions (message classes)",
   "dynamic check only: the static abstract interpretation of the emitted bytecode planned in DESIGN.md §3 C04 is not built; faults are classified by error message",
   "exhaustive bounded program and input enumeration on the real compiler and VM with a fault classifier", "§3 C04"),
+ ("C23", "mtlgen", "exploration",
+  "every checker-accepted program among: the typed families of C01; a format family (every declaration kind x hidden x as-renaming x 0-2 keys x limit x bucket lists incl. 1e-7 and 1e9 boundaries; string literals over {a, escaped quote, escaped backslash, \\n escape, blank} up to length 3 as values and index keys; 10 regexes with slashes/escapes in 4 positions; every pair of 11 arithmetic/bitwise operators with each explicit parenthesisation and none, against relational and logical operators; del/del-after, multi-key indexing, decorators, else/otherwise/stop, unary ~, small and negative literals, builtins); the example programs (about 6 200 programs): parse -> check -> unparse -> parse gives a structurally equal syntax tree (reflection over every exported field of the ast node types except positions, symbols, scopes, types), and formatting the result again gives identical text",
+  "the comparison is on unchecked parse trees (the checker's inserted conversions are not syntax)",
+  "exhaustive bounded program enumeration with a round-trip oracle on the real parser, checker and formatter", "§3 C23"),
 ]
 
 ENGINES = [
